@@ -1149,6 +1149,7 @@ ADVANCE_TO_APP_DATA:
 #  ifdef USE_SHA256
             case SHA256_HASH_SIZE:
                 psSha256PreInit(&md.u.sha256);
+                psSha256Init(&md.u.sha256);
                 break;
 #  endif
 #  ifdef USE_SHA384
@@ -1176,7 +1177,6 @@ ADVANCE_TO_APP_DATA:
                 {
 #  ifdef USE_SHA256
                 case SHA256_HASH_SIZE:
-                    psSha256Init(&md.u.sha256);
                     while (rc > 0)
                     {
                         psSha256Update(&md.u.sha256, tmp, 64);
